@@ -146,17 +146,27 @@ def jsonParseStr (loads : Str → Except Unit JVal) (content : Str) : DocOutcome
 def yamlIgnored (lower : Str → Str) (ignore : List Str) (l : Line) : Bool :=
   ignore.any (fun p => isPrefix p (lower (lstrip l)))
 
-/-- `YAMLParser.parse_content(content)` for list content -/
-def yamlParse (lower : Str → Str) (loads : Str → Except Unit JVal) (ignore : List Str)
-    (content : List Line) : DocOutcome :=
-  let kept := content.filter (fun l => !(yamlIgnored lower ignore l))
-  match loads (joinNl kept) with
+/-- lines 781-787 after the text is chosen: `yaml.load(text)`, `None` → SkipComponent, anything that is not a
+`dict` / `list` → ParseException; every exception other than SkipComponent — whatever its type — is turned into
+ParseException by the bare `except:` (lines 791-796) -/
+def yamlOutcome (loads : Str → Except Unit JVal) (text : Str) : DocOutcome :=
+  match loads text with
   | .error _ => .parseError
   | .ok v =>
     match v.kind with
     | .null => .skip
     | .scalar => .parseError                               -- raised inside the try, translated by `except:`
     | _ => .data v none
+
+/-- `YAMLParser.parse_content(content)` for list content -/
+def yamlParse (lower : Str → Str) (loads : Str → Except Unit JVal) (ignore : List Str)
+    (content : List Line) : DocOutcome :=
+  let kept := content.filter (fun l => !(yamlIgnored lower ignore l))
+  yamlOutcome loads (joinNl kept)
+
+/-- `YAMLParser.parse_content(content)` for `str` content (the `else:` branch: no `ignore_lines`, no emptiness test) -/
+def yamlParseStr (loads : Str → Except Unit JVal) (content : Str) : DocOutcome :=
+  yamlOutcome loads content
 
 /-! ## TextFileOutput: `in`, `get` -/
 
